@@ -52,7 +52,7 @@ class UpgradeSSLContextTLS(SimpleCodemod):
             new_args = [self.make_new_arg(self.SAFE_TLS_PROTOCOL_VERSION)]
         else:
             new_args = self.replace_args(
-                original_node,
+                updated_node,
                 [
                     NewArg(
                         name="protocol",
